@@ -26,8 +26,9 @@
 #ifdef H_serializeTlv
 void harness(void) {
 	const KSI_TLV *tlv = nondet_ptr(); unsigned char *buf = nondet_ptr(); size_t buf_size = nondet_size(); size_t *buf_len = nondet_ptr();
-	int opt = nondet_int();
-	int res = serializeTlv(tlv, buf, buf_size, buf_len, opt);
+	int opt = nondet_int(); int res;
+	g_sp_res = nondet_int(); g_sp_len = nondet_size(); g_sp_byte = nondet_uchar(); g_tlv_k = nondet_size();   /* logical variables: arbitrary */
+	res = serializeTlv(tlv, buf, buf_size, buf_len, opt);
 	if (res == KSI_OK) REACH("serialized");
 	if (res == KSI_OK && g_sp_len == 0xff) REACH("payload 0xff");
 	if (res == KSI_OK && g_sp_len == 0x100) REACH("payload 0x100");
@@ -48,7 +49,9 @@ void harness(void) {
 #ifdef H_serializeRaw
 void harness(void) {
 	const KSI_TLV *tlv = nondet_ptr(); unsigned char *buf = nondet_ptr(); size_t buf_size = nondet_size(); size_t *buf_len = nondet_ptr();
-	int res = serializeRaw(tlv, buf, buf_size, buf_len);
+	int res;
+	g_tlv_k = nondet_size();
+	res = serializeRaw(tlv, buf, buf_size, buf_len);
 	if (res == KSI_OK) REACH("raw payload copied"); else REACH("buffer too small");
 	if (res == KSI_OK && buf_size > 3 && g_tlv_k == 2) REACH("third octet");
 }
@@ -59,6 +62,7 @@ void harness(void) {
 	struct KSI_TLV_st parent; unsigned char *buf = nondet_ptr(); size_t buf_size = nondet_size(); size_t *buf_len = nondet_ptr(); int res;
 	memset(&parent, 0, sizeof(parent));
 	nl_setup();
+	g_tlv_k = nondet_size(); g_st_byte = nondet_uchar();
 	parent.nested = nondet_bool() ? &g_nl_list : NULL;
 	parent.tag = nondet_uint();
 	res = serializeNested(&parent, buf, buf_size, buf_len);
@@ -71,8 +75,9 @@ void harness(void) {
 #ifdef H_writeBytes
 void harness(void) {
 	const KSI_TLV *tlv = nondet_ptr(); unsigned char *buf = nondet_ptr(); size_t buf_size = nondet_size(); size_t *buf_len = nondet_ptr();
-	int opt = nondet_int();
-	int res = KSI_TLV_writeBytes(tlv, buf, buf_size, buf_len, opt);
+	int opt = nondet_int(); int res;
+	g_st_res = nondet_int(); g_st_len = nondet_size(); g_st_byte2 = nondet_uchar(); g_tlv_k = nondet_size();   /* logical variables: arbitrary */
+	res = KSI_TLV_writeBytes(tlv, buf, buf_size, buf_len, opt);
 	if (res == KSI_OK) REACH("written"); else REACH("refused");
 	if (res == KSI_OK && (opt & KSI_TLV_OPT_NO_MOVE) == 0 && g_st_len > 4 && g_tlv_k == 3 && buf_size > g_st_len + 9) REACH("moved to the front");
 	if (res == KSI_OK && (opt & KSI_TLV_OPT_NO_MOVE) != 0 && g_st_len > 4) REACH("left at the end");
